@@ -237,6 +237,9 @@ func (r *run) fail(oracle, fp, format string, a ...interface{}) {
 	if r.viol != nil {
 		return
 	}
+	if r.prop != "C20" && strings.HasPrefix(oracle, "C20.") {
+		oracle = r.prop + oracle[3:] // the same oracle evaluated for another property's check
+	}
 	v := &kernel.Violation{Property: r.prop, Oracle: oracle, Fingerprint: fp, Message: fmt.Sprintf(format, a...)}
 	if r.known[v.Key()] {
 		r.res.Known = append(r.res.Known, v.Key())
@@ -490,6 +493,25 @@ func (r *run) call(tid int, e Ev, client orda.Client, rrecv *int) {
 	r.record(h)
 }
 
+// finalSync: one more Sync, single-threaded, so that everything issued has been pushed (not for the
+// C18 runs: there nobody calls Sync).
+func (r *run) finalSync(client orda.Client) bool {
+	syncDone := make(chan error, 1)
+	go func() { syncDone <- client.Sync() }()
+	select {
+	case err := <-syncDone:
+		if err != nil {
+			r.fail("C20.queued-once-in-order", "final-sync", "final Sync failed: %v", err)
+			return false
+		}
+	case <-time.After(10 * time.Second):
+		// nobody else is running any more: whatever Sync() waits for will never be released
+		r.fail("C20.no-deadlock", "sync-never-returns", "after all goroutines finished, Sync() does not return: it waits for something that nobody holds any more (a lock or the delivery semaphore was not released)")
+		return false
+	}
+	return true
+}
+
 // judge evaluates the oracles once all tasks are done.
 func (r *run) judge(client orda.Client, rrecv *int) {
 	s := r.s
@@ -519,19 +541,11 @@ func (r *run) judge(client orda.Client, rrecv *int) {
 		r.fail("C20.queued-once-in-order", "gap-or-reorder", "the push stream of the shared datatype is broken: %s", r.srv.bad)
 		return
 	}
-	// final sync (single-threaded now) so that everything issued has been pushed
-	syncDone := make(chan error, 1)
-	go func() { syncDone <- client.Sync() }()
-	select {
-	case err := <-syncDone:
-		if err != nil {
-			r.fail("C20.queued-once-in-order", "final-sync", "final Sync failed: %v", err)
+	c18 := r.cfg.Realtime && r.prop == "C18"
+	if !c18 {
+		if !r.finalSync(client) {
 			return
 		}
-	case <-time.After(10 * time.Second):
-		// nobody else is running any more: whatever Sync() waits for will never be released
-		r.fail("C20.no-deadlock", "sync-never-returns", "after all goroutines finished, Sync() does not return: it waits for something that nobody holds any more (a lock or the delivery semaphore was not released)")
-		return
 	}
 	if r.srv.bad != "" {
 		r.fail("C20.queued-once-in-order", "gap-or-reorder", "the push stream of the shared datatype is broken: %s", r.srv.bad)
@@ -580,6 +594,16 @@ func (r *run) judge(client orda.Client, rrecv *int) {
 		return
 	}
 	got, want := kernel.Canon(r.shared.ToJSON()), kernel.Canon(fresh.ToJSON())
+	if got != want && c18 {
+		// C18: a realtime client pushes what it does without anybody calling Sync. All goroutines,
+		// including every delivery goroutine the library started, have finished: the server has it all.
+		r.fail("C18.realtime-pushes-by-itself", r.cfg.Kind+"/operations-left-behind", "realtime client: all goroutines (user calls and every delivery goroutine of the library) have finished, nobody called Sync, and the server's log does not hold everything the client did (nothing will push the rest before the next local operation):\n  client       : %s\n  replay of log: %s", clip(got), clip(want))
+		return
+	}
+	if c18 {
+		r.res.Probes["realtime-push-checked"]++
+		return
+	}
 	if got != want {
 		r.fail("C20.no-lost-update", r.cfg.Kind+"/differs-from-replay", "after all goroutines finished and a final Sync, the shared object differs from a replay of everything it pushed and pulled:\n  shared: %s\n  replay: %s", clip(got), clip(want))
 		return
